@@ -25,6 +25,7 @@ F = Fraction
 FAMILIES = ["closed-newton-cotes", "open-newton-cotes", "chebyshev", "gauss-legendre"]
 
 META = dict(
+    technique='symbolic execution of the real code + z3: linear-arithmetic identities over symbolic polynomial coefficients; inductive step over symbolic memo-table states (membership = solver variable); polynomial identities for spline integrals; lemma-split nlsat query for polyline length',
     bounds=dict(
         quick="rules: 4 families, n <= 8; memo: every (function, n) with n <= 5 from every subset state of the entries with n <= 5; "
               "Integrate.scalar: mode S degree 0..3 <=2 interior knots with the two Newton-Cotes rules, mode K default rule; "
